@@ -166,3 +166,21 @@ func genC06(t *rapid.T) c06Case {
 }
 
 func TestC06(t *testing.T) { runProp(t, "C06", genC06, checkC06) }
+
+// TestC06Sweep: every shape k/2 for k = 1..600 (and the large documented ones) exactly ON the two switch-over lines
+// x = 1 and x = a, and one ulp to either side; x = 0 and the first positive double.
+func TestC06Sweep(t *testing.T) {
+	var cases []c06Case
+	ks := []int{}
+	for k := 1; k <= 600; k++ {
+		ks = append(ks, k)
+	}
+	ks = append(ks, 1000, 2000, 4001, 8191, 8192, 9999, 10000)
+	for _, k := range ks {
+		a := float64(k) / 2
+		for _, x := range []float64{1, math.Nextafter(1, 0), math.Nextafter(1, 2), a, math.Nextafter(a, 0), math.Nextafter(a, 2*a+1), 0, math.SmallestNonzeroFloat64} {
+			cases = append(cases, c06Case{TwoA: k, X: x, X2: math.Nextafter(x, math.Inf(1)), Kind: "on-switch-line"})
+		}
+	}
+	enumerate(t, "C06", cases, checkC06)
+}
